@@ -236,7 +236,8 @@ class AbstractExcelInPython(ABC):
         )
 
     def _match(self, lookup_value, lookup_array: List, match_type: int = 0):
-        lookup_value_type = int if isinstance(lookup_value, self.EmptyCell) else type(lookup_value)
+        # whole numbers and decimals are one kind of value: 20 is found by 20.0
+        lookup_value_type = (int, float) if type(lookup_value) in (int, float, self.EmptyCell) else type(lookup_value)
 
         match match_type:
             case 0:
